@@ -840,6 +840,35 @@ func (vfs *MemFS) Rename(oldpath, newpath string) error {
 	oParent.mu.Lock()
 	defer oParent.mu.Unlock()
 
+	if nParent != oParent {
+		nParent.mu.Lock()
+		defer nParent.mu.Unlock()
+	}
+
+	// As os.Rename and rename(2), the tests on an existing newpath that is a directory
+	// or the same file as oldpath come before any permission check.
+	switch oChild.(type) {
+	case *dirNode:
+		// A directory can't replace a directory, not even itself (as os.Rename).
+		if _, ok := nChild.(*dirNode); ok && !vfs.isNotExist(nErr) {
+			// The same directory under another spelling of its path: nothing to do (as rename(2)).
+			if nChild == oChild && oldpath != newpath {
+				return nil
+			}
+
+			if vfs.OSType() == avfs.OsWindows {
+				nErr = avfs.ErrWinAccessDenied
+			}
+
+			return &os.LinkError{Op: op, Old: oldpath, New: newpath, Err: nErr}
+		}
+	case *fileNode, *symlinkNode:
+		// Renaming a file to itself or to another hard link of itself does nothing.
+		if oPI.Path() == nPI.Path() || (nChild != nil && oChild == nChild) {
+			return nil
+		}
+	}
+
 	if !oParent.checkPermission(avfs.OpenWrite, vfs.User()) {
 		return &os.LinkError{Op: op, Old: oldpath, New: newpath, Err: vfs.err.PermDenied}
 	}
@@ -855,31 +884,12 @@ func (vfs *MemFS) Rename(oldpath, newpath string) error {
 		}
 	}
 
-	if nParent != oParent {
-		nParent.mu.Lock()
-		defer nParent.mu.Unlock()
-
-		if !nParent.checkPermission(avfs.OpenWrite, vfs.User()) {
-			return &os.LinkError{Op: op, Old: oldpath, New: newpath, Err: vfs.err.PermDenied}
-		}
+	if nParent != oParent && !nParent.checkPermission(avfs.OpenWrite, vfs.User()) {
+		return &os.LinkError{Op: op, Old: oldpath, New: newpath, Err: vfs.err.PermDenied}
 	}
 
 	switch c := oChild.(type) {
 	case *dirNode:
-		// A directory can't replace a directory, not even itself (as os.Rename).
-		if _, ok := nChild.(*dirNode); ok && !vfs.isNotExist(nErr) {
-			// The same directory under another spelling of its path: nothing to do (as rename(2)).
-			if nChild == oChild && oldpath != newpath {
-				return nil
-			}
-
-			if vfs.OSType() == avfs.OsWindows {
-				nErr = avfs.ErrWinAccessDenied
-			}
-
-			return &os.LinkError{Op: op, Old: oldpath, New: newpath, Err: nErr}
-		}
-
 		// The root directory can't be renamed and a directory can't be moved into itself.
 		if oChild == node(oParent) || strings.HasPrefix(nPI.Path(), oPI.Path()+string(vfs.PathSeparator())) {
 			return &os.LinkError{Op: op, Old: oldpath, New: newpath, Err: vfs.err.InvalidArgument}
@@ -908,11 +918,6 @@ func (vfs *MemFS) Rename(oldpath, newpath string) error {
 			}
 		}
 	case *fileNode, *symlinkNode:
-		// Renaming a file to itself or to another hard link of itself does nothing.
-		if oPI.Path() == nPI.Path() || (nChild != nil && oChild == nChild) {
-			return nil
-		}
-
 		if nChild == nil {
 			break
 		}
